@@ -18,9 +18,66 @@ def thread_calls(t, seq):
     return [dict(op=op, k=k, v=t * 10 + i + 1) for i, (op, k) in enumerate(seq)]
 
 
+def crash_history(run, comp, programs, stderr):
+    """The driver process died (Go fatal error / unrecovered panic in the code under test).  The journal names the program
+    that was running; it is re-run alone with every event journalled, and the partial history of its last execution,
+    ended by a "crash" line, is returned as a history (no validator action explains a crash line)."""
+    import glob
+    js = sorted(glob.glob(os.path.join(run.scratch, "*trace-%s.ndjson.journal" % comp)))
+    if not js:
+        return None
+    last = None
+    for ln in open(js[-1]):
+        try:
+            e = json.loads(ln)
+        except ValueError:
+            continue
+        if e.get("ev") == "begin":
+            last = e["plan"]
+    if last is None or last >= len(programs):
+        return None
+    prog = programs[last]
+    evs2, rc, err2 = run_driver(run, comp, [prog], args=["fulljournal"], allow_fail=True, timeout=600)
+    js2 = sorted(glob.glob(os.path.join(run.scratch, "*trace-%s.ndjson.journal" % comp)))
+    evs, ex = [], None
+    for ln in open(js2[-1]):
+        try:
+            e = json.loads(ln)
+        except ValueError:
+            continue
+        if "ex" in e:
+            if e["ex"] != ex:
+                ex, evs = e["ex"], []
+            evs.append(e)
+    h = []
+    for e in evs:
+        if e["ev"] == "inv":
+            x = {k: e[k] for k in ("ev", "t", "op", "k", "v") if k in e}
+            if "s" in e:
+                x["s"] = e["s"]
+            h.append(x)
+        elif e["ev"] == "ret" or (e["ev"] == "step" and e.get("to") == "idle"):
+            h.append(dict(ev="ret", t=e["t"], rv=e.get("rv", 0), rok=e.get("rok", False), rep=e.get("rep", [])))
+    msg = ""
+    for ln in (err2 or stderr).splitlines():
+        if ln.startswith("fatal error:") or ln.startswith("panic:"):
+            msg = ln.strip()
+            break
+    h.append(dict(ev="crash", msg=msg or "driver process died"))
+    return dict(ev="hist", plan=last, ex=ex or 0, free=False, deadlock=False, blocked=False, choices=[], h=h, program=prog,
+                crashed=True)
+
+
 def run_programs(run, comp, programs, timeout=3000):
     """Returns (histories, fine_traces): per execution one dict (hist line) and, where recorded, the fine events."""
-    evs = run_driver(run, comp, programs, timeout=timeout)
+    evs, rc, err = run_driver(run, comp, programs, timeout=timeout, allow_fail=True)
+    crash = None
+    if rc != 0:
+        if "fatal error:" in err or "panic:" in err:
+            crash = crash_history(run, comp, programs, err)
+        if crash is None:
+            raise Inconclusive("driver %s failed rc=%d: %s" % (comp, rc, err[-1500:]))
+        log("  driver %s died (%s); partial history of the crashing execution recorded" % (comp, crash["h"][-1]["msg"]))
     hists, fines, cur = [], [], None
     for e in evs:
         if e["ev"] == "summary":
@@ -34,8 +91,12 @@ def run_programs(run, comp, programs, timeout=3000):
         elif e["ev"] == "reset":
             cur = [e]
             fines.append(cur)
+        elif e["ev"] == "aborted":
+            run.notes.append("driver %s stopped early after %d deadlocks / %d stuck steps" % (comp, e["deadlocks"], e["stuck"]))
         elif cur is not None:
             cur.append(e)
+    if crash is not None:
+        hists.append(crash)
     return hists, fines
 
 
